@@ -56,7 +56,23 @@ func (x *Exec) builtin(st *State, fr *Frame, dst ssa.Value, b *ssa.Builtin, args
 		}
 		set(x.appendOp(st, args[0], args[1], args[0].T))
 	case "copy":
-		unsupportedf("builtin copy")
+		dstv, src := args[0], args[1]
+		sl, ok := dstv.T.Underlying().(*types.Slice)
+		if !ok || src.Fields == nil {
+			unsupportedf("builtin copy on %s", dstv.T)
+		}
+		n := Ite(Le(dstv.Fields[1].Term, src.Fields[1].Term), dstv.Fields[1].Term, src.Fields[1].Term)
+		var ls []leafInfo
+		leaves(sl.Elem(), "", &ls)
+		for _, l := range ls {
+			key := sliceHeapKey(sl.Elem(), l.Path)
+			h := st.heapGet(key, ArrSort(SInt, ArrSort(SInt, l.Sort)))
+			A := Fresh("copy$"+sanitize(l.Path), ArrSort(SInt, l.Sort))
+			j := BoundVar("j", SInt)
+			st.Assume(Forall([]*Term{j}, Eq(Select(A, j), Ite(And(Ge(j, IntLit(0)), Lt(j, n)), Select(Select(h, src.Fields[0].Term), j), Select(Select(h, dstv.Fields[0].Term), j)))))
+			st.Heap[key] = Store(h, dstv.Fields[0].Term, A)
+		}
+		set(intVal(n))
 	case "delete":
 		mt := args[0].T.Underlying().(*types.Map)
 		st.mapDelete(mt, args[0].Term, x.keyTerm(args[1]))
@@ -469,6 +485,18 @@ func (x *Exec) interfere(st *State, why string) {
 				keep = append(keep, fr)
 			}
 			for _, f := range fields {
+				if strings.HasPrefix(f, "#") {
+					// ghost field guarded by the monitor
+					key := heapKeyField(root, f)
+					cur := st.heapGet(key, ArrSort(SInt, SInt))
+					nw := Fresh("if$"+key, ArrSort(SInt, SInt))
+					for _, b := range keep {
+						nw = Store(nw, b, Select(cur, b))
+					}
+					st.Heap[key] = nw
+					changed = true
+					continue
+				}
 				ft := fieldTypeAt(root, []string{f})
 				if mt, isMap := ft.Underlying().(*types.Map); isMap {
 					// the monitor also owns the contents of the map stored in the field
@@ -563,6 +591,37 @@ func (x *Exec) interfere(st *State, why string) {
 		}
 		st.setGhostArr("wg", nwg)
 	}
+	// fields this thread is the only writer of (ghost sole-writer X.f): their value at X is kept
+	if x.FC != nil && len(st.Frames) > 0 {
+		for _, cl := range x.FC.Of("ghost") {
+			if !strings.HasPrefix(cl.Text, "sole-writer ") {
+				continue
+			}
+			e, err := ParseExpr(strings.TrimPrefix(cl.Text, "sole-writer "))
+			if err != nil || e.Kind != "sel" {
+				unsupportedf("ghost sole-writer expects X.field")
+			}
+			x.note("ASSUMED: only this goroutine writes " + cl.Text[12:])
+			env := x.envAt(st, st.Frames[0])
+			for n, p := range x.Entry.Params {
+				env.Vars[n] = p
+			}
+			ov := x.V.eval(env, e.Args[0])
+			ns := namedStruct(pointee(ov.T))
+			if ns == nil || ov.Term == nil {
+				continue
+			}
+			ft := fieldTypeAt(ns, []string{e.Op})
+			var ls []leafInfo
+			leaves(ft, e.Op, &ls)
+			for _, l := range ls {
+				key := heapKeyField(ns, l.Path)
+				if ob, ok := before[key]; ok {
+					st.Heap[key] = Store(st.heapGet(key, ArrSort(SInt, l.Sort)), ov.Term, Select(ob, ov.Term))
+				}
+			}
+		}
+	}
 	st.Trace = append(st.Trace, "interference@"+why)
 	x.assumeStrong(st)
 }
@@ -587,6 +646,9 @@ func (x *Exec) ownedChans(st *State, heap map[string]*Term) []*Term {
 		}
 		sort.Strings(fs)
 		for _, f := range fs {
+			if strings.HasPrefix(f, "#") {
+				continue
+			}
 			ft := fieldTypeAt(h.Root, []string{f})
 			if _, ok := ft.Underlying().(*types.Chan); ok {
 				out = append(out, hs.loadPath(h.Root, h.Base, f, ft).Term)
@@ -710,6 +772,9 @@ func (x *Exec) send(st *State, fr *Frame, i *ssa.Send) {
 	x.oblige(st, "nopanic", fmt.Sprintf("nopanic:send-on-closed@%s#%d", ap, k), Not(st.closed(ch.Term)), i.Pos(), "")
 	st.Assume(Not(st.closed(ch.Term)))
 	x.logSend(st, ap, v)
+	// whatever was sent (and what it reaches) is shared from now on
+	st.FreshRefs = map[string]bool{}
+	st.FreshList = nil
 	st.Trace = append(st.Trace, "send "+ap)
 }
 
@@ -835,6 +900,8 @@ func (x *Exec) selectStmt(st *State, fr *Frame, i *ssa.Select) {
 			sv := x.val(s1, s1.Top(), c.Send)
 			x.siteAsserts(s1, s1.Top(), "send:"+ap, i.Pos())
 			x.logSend(s1, ap, sv)
+			s1.FreshRefs = map[string]bool{}
+			s1.FreshList = nil
 			s1.Trace = append(s1.Trace, fmt.Sprintf("select#%d: send %s", k, ap))
 			build(s1, ci, -1, nil, False)
 			states = append(states, s1)
@@ -842,6 +909,27 @@ func (x *Exec) selectStmt(st *State, fr *Frame, i *ssa.Select) {
 	}
 	if !i.Blocking {
 		s := st.Clone()
+		// default is taken only when no case is ready: a close-only channel is then not closed
+		for _, c := range i.States {
+			if c.Dir != types.RecvOnly {
+				continue
+			}
+			ap := accessPath(c.Chan)
+			if kk := chanKind(c.Chan); kk != "" {
+				ap = kk
+			}
+			if ap == "" {
+				if fk := chanFieldKey(c.Chan); fk != "" {
+					ap = "field:" + fk
+					x.chanKeys[ap] = fk
+				}
+			}
+			if x.V.noSendChan(x, ap) || ap == "ctxdone" {
+				if cv := x.val(s, s.Top(), c.Chan); cv != nil && cv.Term != nil {
+					s.Assume(Or(Eq(cv.Term, IntLit(0)), Not(s.closed(cv.Term))))
+				}
+			}
+		}
 		s.Trace = append(s.Trace, fmt.Sprintf("select#%d: default", k))
 		build(s, -1, -1, nil, False)
 		states = append(states, s)
